@@ -16,6 +16,10 @@ class Unknown(Exception):
     pass
 
 
+class Masked(Unknown):
+    """a masked ufunc call: decided (the masked entries are not the formula), not merely outside the subset"""
+
+
 # ------------------------------------------------------------------------------------------------ polynomials
 class Poly:
     """dict {monomial: coefficient}; monomial = tuple of (symbol, exponent) sorted by symbol"""
@@ -244,6 +248,8 @@ class Eval:
             return self.ev(e.value)
         if isinstance(e, ast.Call):
             name = norm(e.func).split('.')[-1]
+            if any(k.arg == 'where' for k in e.keywords):
+                raise Masked(f'`{norm(e)[:80]}` is a masked ufunc call (where=): the entries the mask excludes keep the content of `out`, they are not the value of the formula')
             if name == 'sqrt' and len(e.args) == 1:
                 return self.sqrt(self.ev(e.args[0]))
             if name in ('matmul', 'dot', 'multiply', 'outer') and len(e.args) == 2:
@@ -310,6 +316,8 @@ def run_function(fnode, seeds, loop_bind=None, helper=None):
                 t = st.targets[0]
                 try:
                     v = evl.ev(st.value)
+                except Masked:
+                    raise
                 except Unknown:
                     v = None
                 if isinstance(t, ast.Tuple) and isinstance(st.value, ast.Tuple) and len(t.elts) == len(st.value.elts):
